@@ -10,6 +10,7 @@ import Nsl.Model.Static
 import Nsl.Model.WF
 import Nsl.Model.Lower
 import Nsl.Model.CoreSem
+import Nsl.Model.Names
 import Nsl.Gen.Grammar
 /-!
 # Line-protocol driver: one request per line on stdin, one answer per line on stdout.
@@ -141,6 +142,7 @@ def handle (st : DState) (line : String) : DState × String :=
       | _, _ => "error")
   | "flow" :: _ => (st, Flow.run (restOfLine line 1))
   | "static" :: _ => (st, Static.run (restOfLine line 1))
+  | "names" :: _ => (st, Names.run (restOfLine line 1))
   | "mod" :: _ =>
     match (Sexp.parse (restOfLine line 1)).bind Codec.decModule with
     | some m => ({ st with mod := some m, prog := some (Lower.lowerModule m) }, "ok")
